@@ -91,7 +91,10 @@ def run_shard(ctx: Ctx) -> None:
                 if k == 0:
                     return
                 continue
-            for v in vals:
+            for j, v in enumerate(vals):
+                if (j + len(vals)) % 3 == 0:
+                    CC.poison(fcp, s, name, v, j + k)
+                    rec.cls("after_failed_call")
                 _data, classes, nt = CC.classify(s, name, v)
                 rec.eval()
                 rec.cls(*classes)
@@ -104,8 +107,8 @@ def run_shard(ctx: Ctx) -> None:
                                 "schemas_loaded_before_in_this_history": k})
                 msg = check_value(fcp, s, name, v, ctx.known, rec)
                 if msg:
+                    cj["history_pickle"] = pickle_b64(steps[: k + 1])
                     if k:
-                        cj["history_pickle"] = pickle_b64(steps[: k + 1])
                         msg = f"after {k} same-named schema(s) were used in this process: " + msg
                     raise Violation(msg, cj)
             # drop the schema object before the next one is loaded (an edited file re-loaded by a long-lived tool)
@@ -128,11 +131,13 @@ def replay(case: Dict[str, Any]) -> Optional[str]:
     if case.get("history_pickle"):
         import gc
 
-        for hs, hname, hvals in unpickle_b64(case["history_pickle"]):
+        for hk, (hs, hname, hvals) in enumerate(unpickle_b64(case["history_pickle"])):
             fcp, _t, err = frontend.parse_schema(hs)
             if fcp is None:
                 continue
-            for hv in hvals:
+            for hj, hv in enumerate(hvals):
+                if (hj + len(hvals)) % 3 == 0:
+                    CC.poison(fcp, hs, hname, hv, hj + hk)
                 msg = check_value(fcp, hs, hname, hv, load_known("C01"))
                 if msg:
                     return msg
